@@ -221,9 +221,12 @@ def _analyze_node(node, config: Config, cwd: Path, *, remote: bool = False) -> D
         if not remote and _changes_directory(node.body):
             body_cwd = _UNKNOWN_CWD  # a later iteration starts where the previous ended
         decisions = [_analyze_node(node.body, config, body_cwd, remote=remote)]
-        # Check iteration words for cmdsubs
+        # Check iteration words for cmdsubs (the loop variable holds them:
+        # a quoted substitution in a subscript runs when arithmetic reads it)
         for word in getattr(node, "words", None) or []:
-            decisions.extend(_analyze_word_parts(word, config, cwd, remote=remote))
+            decisions.extend(
+                _analyze_word_parts(word, config, cwd, remote=remote, scan_raw=True)
+            )
         decisions.extend(_analyze_redirects(node, config, cwd, remote=remote))
         return _combine(decisions)
 
@@ -248,7 +251,9 @@ def _analyze_node(node, config: Config, cwd: Path, *, remote: bool = False) -> D
         decisions = [_analyze_node(node.body, config, body_cwd, remote=remote)]
         # Check selection words for cmdsubs
         for word in getattr(node, "words", None) or []:
-            decisions.extend(_analyze_word_parts(word, config, cwd, remote=remote))
+            decisions.extend(
+                _analyze_word_parts(word, config, cwd, remote=remote, scan_raw=True)
+            )
         decisions.extend(_analyze_redirects(node, config, cwd, remote=remote))
         return _combine(decisions)
 
@@ -363,7 +368,12 @@ def _analyze_command(
             decisions.append(Decision("ask", "ambiguous $(( expansion"))
         if _substitutions_lost(word_value, word):
             decisions.append(Decision("ask", "substitution not analysed"))
-        if not parts and _names_variable(base, words, position, base_idx):
+        if not parts and (
+            position < base_idx
+            or _names_variable(base, words, position, base_idx)
+        ):
+            # a variable name, or the value kept in a variable: arithmetic
+            # evaluates both, and runs a quoted substitution in a subscript
             decisions.extend(
                 _analyze_string_cmdsubs(word_value, config, cwd, remote=remote)
             )
@@ -481,8 +491,9 @@ def _analyze_redirects(
 
         # Check for cmdsubs in redirect target
         if r.target:
+            # a here-string is data a later `read` may put into a variable
             target_cmdsub_decisions = _analyze_word_parts(
-                r.target, config, cwd, remote=remote
+                r.target, config, cwd, remote=remote, scan_raw=(op == "<<<")
             )
             decisions.extend(target_cmdsub_decisions)
 
